@@ -45,8 +45,11 @@ def _write_machine(config, modes, shows=None):
 
 def _mk(base):
     class _Rig(base):
-        def __init__(self, config, modes=None, shows=None, platform="virtual", patches=None, mock_data=None):
+        def __init__(self, config, modes=None, shows=None, platform="virtual", patches=None, mock_data=None,
+                     use_bcp=False, mock_loop=None):
             super().__init__("runTest")
+            self._use_bcp = use_bcp
+            self._mock_loop_fn = mock_loop
             self._dir = _write_machine(config, modes, shows)
             self._platform = platform
             self._mock_data_ = mock_data
@@ -65,6 +68,13 @@ def _mk(base):
 
         def get_platform(self):
             return self._platform
+
+        def get_use_bcp(self):
+            return self._use_bcp
+
+        def _mock_loop(self):
+            if self._mock_loop_fn:
+                self._mock_loop_fn(self)
 
         def _get_mock_data(self):
             return self._mock_data_ if self._mock_data_ is not None else super()._get_mock_data()
